@@ -17,6 +17,7 @@ import TdVerif.Lemmas.C08Perm
 import TdVerif.Lemmas.C08Cat
 import TdVerif.Lemmas.C08Stack
 import TdVerif.Lemmas.C08Two
+import TdVerif.Lemmas.C08Two2
 import TdVerif.Lemmas.C08CatN
 import TdVerif.Lemmas.C08Apply
 import TdVerif.Lemmas.C08Reduce
@@ -935,6 +936,20 @@ theorem getitem_stack_of_stacks_composes [Inhabited α] (Lo : Lazy2 α) (bIn : S
     (r2 : LRes2 α) (hr : lazyGetCore2 Lo ix = some r2)
     (d : TD α) (hd : (abs2 Lo).index ix = some d) : ReadOK2 r2 d :=
   getitem2_refines_core Lo bIn keys feat sdIn nIn hU hne0 ix hp hne hadv hnt hin r2 hr d hd
+
+/-- **stack of stacks, item on the OUTER stack dim = a rank-1 integer tensor (list / range)**: the
+is_nd_tensor branch (`recompose`) over members that are lazy stacks — the inner stacks picked by the
+entries, each read with the remaining index, stacked lazily at `stack_dim - num_single + num_none`;
+if the inner reads materialise to the dense inner reads (`InnerOK`) the result materialises to
+`dense_of_dense[ix]`. -/
+theorem getitem_stack_of_stacks_tensor [Inhabited α] (Lo : Lazy2 α) (bIn : Shape) (keys : List String) (feat : String → Shape)
+    (sdIn nIn : Nat) (hU : Uniform2 Lo bIn keys feat sdIn nIn) (hne0 : Lo.members ≠ []) (ix : List Ix)
+    (hp : Plain Lo.sd ix) (hne : ∀ it ∈ ix, it ≠ Ix.ell) (hadv : AtMostOneAdv ix)
+    (t : T Int) (k : Nat) (hitem : (splitRec Lo.sd ix).item = some (.tens t)) (hk : t.shape = [k])
+    (hin : InnerOK Lo (splitRec Lo.sd ix).out)
+    (r2 : LRes2 α) (hr : lazyGetCore2T Lo ix = some r2)
+    (d : TD α) (hd : (abs2 Lo).index ix = some d) : absR2 r2 ≈ d :=
+  getitem2_tens1 Lo bIn keys feat sdIn nIn hU hne0 ix hp hne hadv t k hitem hk hin r2 hr d hd
 
 /-- **`lazy_of_lazy[index]` is `dense_of_dense[index]`** (Ellipsis allowed), the inner hypothesis
 discharged by the one-level theorems: the item on the outer stack dim is an integer / slice /
